@@ -346,7 +346,7 @@ PROPS["C18"]["claim"] = ("Record layer only, for ANY cipher (encrypt/decrypt abs
                          "Secrecy, tamper detection by the AEAD itself and cross-session nonce/key freshness are cryptographic and not decided here.")
 
 PROPS["C13"] = {
-  "units": ["lb", "route", "flags"],
+  "units": ["lb", "route", "flags", "pushpipes"],
   "kani_quick": [], "kani_thorough": [],
   "claim": "Proved for every history of add/remove/get on the verbatim LoadBalancer (representation invariant: no duplicate peers, cursor in range): get_next_connection serves exactly the peer under the cursor and advances it round-robin; "
            "a peer joins once at the end; removing a peer keeps the order of the others and the peer that would have been served next is still next (its successor if it was the removed one). "
@@ -359,7 +359,7 @@ PROPS["C13"] = {
   "assumptions": ["each LoadBalancer method holds its mutex from first to last statement (checked by reading: one lock() per method)"],
 }
 PROPS["C17"] = {
-  "units": ["backoff", "connecter", "connfail"],
+  "units": ["backoff", "connecter", "connfail", "pushpipes"],
   "kani_quick": [], "kani_thorough": [], "enum_fallback": ["connect_failed_frame"],
   "claim": "Back-off arithmetic only, proved for ALL (attempts: u32, RECONNECT_IVL, RECONNECT_IVL_MAX) on the verbatim ReconnectState: the delay equals min(base * 2^min(attempts,31) saturating, max if set); "
            "the first delay is RECONNECT_IVL, consecutive delays never shrink and at most double (lemma_backoff_geometric), never exceed RECONNECT_IVL_MAX when set; attempts count up saturating, success resets; "
@@ -367,7 +367,8 @@ PROPS["C17"] = {
            "Failure locality of the retry sleep (TcpConnecter::wait_for_retry_delay_internal, select! desugared by R12): the connecter gives up only for the termination of its context, the closing of its OWN parent socket or a failed event bus; "
            "an event that concerns another socket of the same context never ends the retry loop. "
            "The socket core's handling of a failed connection attempt (unit connfail: the whole handle_connect_failed_event) touches the retry state of the failed endpoint ONLY: every other endpoint's attempt count and armed retry time are exactly what they were, "
-           "no entry is dropped or invented; the failed endpoint's own back-off advances by on_connection_failure iff reconnecting is enabled and the error is not fatal.",
+           "no entry is dropped or invented; the failed endpoint's own back-off advances by on_connection_failure iff reconnecting is enabled and the error is not fatal. "
+           "PUSH's reaction to a lost pipe (unit pushpipes: the whole PushSocket::pipe_detached / pipe_attached): a detach removes exactly that pipe's entry and exactly that pipe's connection from the load balancer (every other pipe and connection untouched; an unknown pipe touches nothing); an attach registers the pipe and the connection under the same endpoint.",
   "level_note": "Failure isolation across connections in the socket core's event handlers and 'traffic resumes once the peer is reachable' are fault-sequence/system properties: not covered; the zero-delay branch of the retry sleep is outside the contract (a zero RECONNECT_IVL cannot come out of the option parser). The call sites in async event handlers pass option values or small defaults (read, not under contract).",
   "technique": "contract-based deductive verification (Verus; durations as nanoseconds, nonlinear-arithmetic lemmas)",
   "trusted_base": ["prelude/time.rs: Duration/Instant as nanoseconds; saturating_mul clamps at Duration::MAX; Instant + Duration panics beyond the platform range (precondition)", "ASSUMPTION: the monotonic clock reads below half of its representable range"],
